@@ -95,7 +95,7 @@ def run(rep, pdb, tier):
             calls.append(callee_path(n))
         if n.get("k") == "Def" and str(n.get("dk", "")).startswith("Static"):
             calls.append("static " + str(n.get("fn")))
-    pure = all(c in ("[T]::len", "std::vec::Vec<T, A>::len", "std::cmp::min") for c in calls)     # (the last two come from a canonicalised zip loop)
+    pure = all(c in ("[T]::len", "std::vec::Vec<T, A>::len", "std::cmp::min") or str(c).startswith(("<&f64 as std::ops::", "<f64 as std::ops::", "<&'a f64 as std::ops::")) for c in calls)     # (the last two come from a canonicalised zip loop)
     unsafe_free = pdb.d["unsafe_blocks"] + pdb.d["unsafe_items"] == 0
     rep.add("schedule-free", "the spawned closure captures only shared references to [f64], calls nothing but slice len/index and f64 arithmetic, "
             "and returns its partial sum by value; no unsafe in the crate: each partial sum is a pure function of its window",
